@@ -198,10 +198,51 @@ def run(chk):
                 for atom_, k in od.items():
                     for _ in range(k):
                         x = X.diff(x, atom_); y = X.diff(y, atom_)
-                if not dd.equal(x, y):
+                try:
+                    same_ = dd.equal(x, y)
+                except AnalysisError as ex:
+                    if 'pole' not in str(ex):
+                        raise
+                    # a derivative has a pole at the expansion point: one side is not differentiable there (|sin I| written as sqrt(1 - cos^2 I)) or is written with a
+                    # removable singularity.  Decide by the order of A - B along rays through the point, both signs: agreement of all partials up to total degree D means
+                    # A - B = O(delta^(D+1)) on every ray.
+                    why = ray_order(A[i], B[i], orders, extra_pins)
+                    if why:
+                        bad.append(f'{NAMES[i]}: {why}')
+                        return chk.ob(rule, inst, False, '; '.join(bad[:4]), where, key=f'{rule}|{inst}', method='order of the difference along rays through the expansion point (float evaluation of the extracted expressions)')
+                    continue
+                if not same_:
                     bad.append(f'{NAMES[i]} coefficient of ' + '*'.join(f'{a_}^{k}' for a_, k in od.items()) + f': {dd.describe(x, y)}')
                     break
         chk.ob(rule, inst, not bad, '; '.join(bad[:4]), where, key=f'{rule}|{inst}', method='pinned GF(p^2) PIT on symbolic partial derivatives')
+
+    def ray_order(a_node, b_node, orders, extra_pins):
+        import itertools, math
+        atoms_ = sorted({k_ for od_ in orders for k_ in od_})
+        D = max(sum(od_.values()) for od_ in orders)
+        fixed = {'colatitude': 1.1, 'longitude': 0.7, 'time': 0.37, 'n': 1.3, 'o': 0.41, 'radius': 1.2, 'host_mass': 0.9, 'a': 1.7, 'e': 0.05, 'obliquity': 0.3, 'pi': math.pi}
+        fixed.update({k_: float(v_) for k_, v_ in (extra_pins or {}).items()})
+        worst = None
+        for signs in itertools.product(*[((1,) if a_ == 'e' else (1, -1)) for a_ in atoms_]):
+            vals = []
+            for delta in (2e-2, 2e-3):
+                env = dict(fixed)
+                for a_, s_ in zip(atoms_, signs):
+                    env[a_] = s_ * delta * (0.8 if a_ == 'e' else 1.0)
+                va = X.float_eval(a_node, env, seed=7); vb = X.float_eval(b_node, env, seed=7)
+                if va != va or vb != vb:
+                    return 'the expressions cannot be evaluated next to the expansion point'
+                vals.append((abs(va - vb), max(abs(va), abs(vb), 1e-300)))
+            (d1, s1), (d2, s2) = vals
+            if d1 <= 1e-11 * s1 and d2 <= 1e-11 * s2:
+                continue
+            ratio = d1 / max(d2, 1e-300)
+            if ratio < 0.2 * 10 ** (D + 1):
+                ray = ', '.join(f'{a_} {"<" if s_ < 0 else ">"} 0' for a_, s_ in zip(atoms_, signs))
+                order = math.log10(max(ratio, 1e-300))
+                return (f'along the ray {ray} the two variants differ at order ~{order:.1f} in the small parameter (agreement of all terms up to total degree {D} needs order {D + 1}); '
+                        f'difference {d1:.3g} at 2e-2, {d2:.3g} at 2e-3')
+        return None
 
     # dynamic (time-dependent) part: use_static=False for every pair
     us = False
